@@ -47,6 +47,11 @@ pub enum Universe {
     /// the capture-only extension depends on its kind (a rook may take a rook there, a queen may not), so rook and bishop
     /// promotions are sometimes strictly best by an ordinary margin.
     UPQ,
+    /// knight-fork promotions: a pawn on its 7th rank (each file), the enemy king and an enemy queen or rook on two of
+    /// the squares a knight on the promotion square attacks, the own king on six spread squares, the promoting side to
+    /// move; both colours. The knight promotion is (often) the best move and the line goes on with the new knight or with
+    /// a king move that only a knight's check explains - what a line looks like after an under-promotion.
+    UNF,
     /// castling x en passant product: kings on e1/e8, every (rook subset, rights subset) of UC, a capturer/victim pawn pair
     /// on every file pair, with the en-passant flag set and not set, both colours: all (rights, ep) state bytes on one board
     UCE,
@@ -76,6 +81,7 @@ impl Universe {
             Universe::UEX => "UEX".into(),
             Universe::UPP => "UPP".into(),
             Universe::UPQ => "UPQ".into(),
+            Universe::UNF => "UNF".into(),
             Universe::UZ { a, b, d } => format!("UZ[{}{}|{}]", piece_letter(code(*a, true)), piece_letter(code(*b, true)), piece_letter(code(*d, false))),
             Universe::UPIN => "UPIN".into(),
             Universe::UDBL => "UDBL".into(),
@@ -86,7 +92,7 @@ impl Universe {
     pub fn units(&self) -> usize {
         match self {
             Universe::U2 | Universe::U3 | Universe::U4 { .. } | Universe::UE { .. } | Universe::UCK { .. } | Universe::UPIN | Universe::UDBL => 64,
-            Universe::UEA | Universe::UEX | Universe::UPQ => 8,
+            Universe::UEA | Universe::UEX | Universe::UPQ | Universe::UNF => 8,
             Universe::UZ { .. } => 12,
             Universe::UPP => 64,
             Universe::UC { .. } | Universe::UCE => 81,
@@ -130,6 +136,7 @@ impl Universe {
             Universe::UEX => uex_unit(unit as i8, f),
             Universe::UPP => upp_unit(unit as u8, f),
             Universe::UPQ => upq_unit(unit as i8, f),
+            Universe::UNF => unf_unit(unit as i8, f),
             Universe::UZ { a, b, d } => uz_unit(unit, *a, *b, *d, f),
             Universe::UPIN => upin_unit(unit as u8, f),
             Universe::UDBL => udbl_unit(unit as u8, f),
@@ -669,6 +676,45 @@ fn upp_unit(wk: u8, f: &mut dyn FnMut(Pos)) {
                             if m.sane() {
                                 f(m);
                             }
+                        }
+                    }
+                }
+            }
+        }
+    }
+}
+
+fn unf_unit(file: i8, f: &mut dyn FnMut(Pos)) {
+    let pawn = sq(6, file);
+    let promo = sq(7, file);
+    let mut targets: Vec<u8> = vec![];
+    for (dr, df) in [(-1i8, -2i8), (-1, 2), (-2, -1), (-2, 1)] {
+        let (r, c) = (7 + dr, file + df);
+        if (0..8).contains(&r) && (0..8).contains(&c) {
+            targets.push(sq(r, c));
+        }
+    }
+    for &ks in &targets {
+        for &es in &targets {
+            if es == ks {
+                continue;
+            }
+            for enemy in [Q, R] {
+                for wk in [sq(0, 0), sq(0, 7), sq(2, 3), sq(3, 6), sq(4, 1), sq(0, 4)] {
+                    if [pawn, promo, ks, es].contains(&wk) || adjacent(wk, ks) {
+                        continue;
+                    }
+                    let mut p = Pos::empty();
+                    p.b[wk as usize] = WK;
+                    p.b[ks as usize] = BK;
+                    p.b[pawn as usize] = code(P, true);
+                    p.b[es as usize] = code(enemy, false);
+                    p.white = true;
+                    if p.sane() {
+                        f(p);
+                        let m = p.mirror();
+                        if m.sane() {
+                            f(m);
                         }
                     }
                 }
